@@ -57,10 +57,85 @@ def ep_dir(kind):
     return "in" if kind in ("in", "sig", "isoin") else "out"
 
 
-class Bench:
-    """One elaborated device; `run(script, seed, ...)` may be called many times (simulator is reset)."""
+def make_assembly(utmi, endpoints, speed):
+    """The packet layer of USBDevice wired exactly as device.py does (token detector, data receiver, CRC unit,
+    inter-packet timer, endpoint multiplexer, data transmitter, handshake generator / detector, tx multiplexer) around
+    the given endpoints, with the link speed *pinned* (0 = high, 1 = full; 60 MHz clock table) instead of running the
+    reset / chirp sequencer -- `USBDevice(bus=UTMIInterface())` itself is always full speed.  No control endpoint."""
+    from amaranth import Elaboratable, Module, Const
+    from luna.gateware.interface.utmi import UTMIInterfaceMultiplexer
+    from luna.gateware.usb.usb2.packet import (USBTokenDetector, USBHandshakeGenerator, USBDataPacketCRC,
+                                               USBInterpacketTimer, USBDataPacketGenerator, USBHandshakeDetector,
+                                               USBDataPacketReceiver)
+    from luna.gateware.usb.usb2.endpoint import USBEndpointMultiplexer
 
-    def __init__(self, eps, control=True):
+    class Assembly(Elaboratable):
+        def __init__(self):
+            self.utmi = utmi
+
+        def elaborate(self, platform):
+            m = Module()
+            spd = Const(speed, 2)
+            m.submodules.token_detector = token_detector = USBTokenDetector(utmi=utmi, domain_clock=60e6, fs_only=False)
+            m.submodules.transmitter = transmitter = USBDataPacketGenerator()
+            m.submodules.receiver = receiver = USBDataPacketReceiver(utmi=utmi)
+            m.submodules.handshake_generator = handshake_generator = USBHandshakeGenerator()
+            m.submodules.handshake_detector = handshake_detector = USBHandshakeDetector(utmi=utmi)
+            m.submodules.data_crc = data_crc = USBDataPacketCRC()
+            m.submodules.timer = timer = USBInterpacketTimer(domain_clock=60e6, fs_only=False)
+            data_crc.add_interface(transmitter.crc)
+            data_crc.add_interface(receiver.data_crc)
+            timer.add_interface(receiver.timer)
+            m.d.comb += [
+                token_detector.address.eq(0),
+                data_crc.rx_data.eq(utmi.rx_data),
+                data_crc.rx_valid.eq(utmi.rx_valid),
+                token_detector.speed.eq(spd),
+                timer.speed.eq(spd),
+            ]
+            m.submodules.endpoint_mux = endpoint_mux = USBEndpointMultiplexer()
+            shared = endpoint_mux.shared
+            timer.add_interface(shared.timer)
+            data_crc.add_interface(shared.data_crc)
+            m.d.comb += [
+                token_detector.interface.connect(shared.tokenizer),
+                handshake_detector.detected.connect(shared.handshakes_in),
+                shared.speed.eq(spd),
+                shared.active_config.eq(1),
+                shared.active_address.eq(0),
+                receiver.stream.connect(shared.rx),
+                shared.rx_complete.eq(receiver.packet_complete),
+                shared.rx_invalid.eq(receiver.crc_mismatch),
+                shared.rx_ready_for_response.eq(receiver.ready_for_response),
+                shared.rx_pid_toggle.eq(receiver.active_pid[3]),
+                shared.tx.attach(transmitter.stream),
+                handshake_generator.issue_ack.eq(shared.handshakes_out.ack),
+                handshake_generator.issue_nak.eq(shared.handshakes_out.nak),
+                handshake_generator.issue_stall.eq(shared.handshakes_out.stall),
+                transmitter.data_pid.eq(shared.tx_pid_toggle),
+            ]
+            for i, ep in enumerate(endpoints):
+                endpoint_mux.add_interface(ep.interface)
+                m.submodules["ep%d" % i] = ep
+            m.submodules.tx_multiplexer = tx_multiplexer = UTMIInterfaceMultiplexer()
+            tx_multiplexer.add_input(transmitter.tx)
+            tx_multiplexer.add_input(handshake_generator.tx)
+            m.d.comb += [
+                tx_multiplexer.output.attach(utmi),
+                data_crc.tx_valid.eq(tx_multiplexer.output.valid & utmi.tx_ready),
+                data_crc.tx_data.eq(tx_multiplexer.output.data),
+            ]
+            return m
+
+    return Assembly()
+
+
+class Bench:
+    """One elaborated device; `run(script, seed, ...)` may be called many times (simulator is reset).
+    speed=None: a real USBDevice(bus=UTMIInterface()) (full speed, 12 MHz, with the standard control endpoint);
+    speed=0/1: `make_assembly` with high / full speed inter-packet timing at 60 MHz (no control endpoint)."""
+
+    def __init__(self, eps, control=True, speed=None):
         # eps: list of dicts {kind: in|out|sig|isoin|isoout, n, max, depth(out), width(sig)}
         from amaranth.sim import Simulator
         from luna.gateware.interface.utmi import UTMIInterface
@@ -68,9 +143,11 @@ class Bench:
         from luna.gateware.usb.usb2.endpoints.stream import USBStreamInEndpoint, USBStreamOutEndpoint
         self.eps = [dict(e, dir=ep_dir(e["kind"])) for e in eps]
         self.bus = UTMIInterface()
-        self.dev = USBDevice(bus=self.bus)
-        if control:
+        self.speed = speed
+        self.dev = USBDevice(bus=self.bus) if speed is None else None
+        if control and speed is None:
             self.dev.add_standard_control_endpoint(make_descriptors(self.eps))
+        mods = []
         self.mod = {}
         for e in self.eps:
             k, n = e["kind"], e["n"]
@@ -90,10 +167,14 @@ class Bench:
                                                     buffer_size=e.get("depth"))
             else:
                 raise ValueError(k)
-            self.dev.add_endpoint(m)
+            if self.dev is not None:
+                self.dev.add_endpoint(m)
+            mods.append(m)
             self.mod[(e["dir"], n)] = (k, m)
+        if self.dev is None:
+            self.dev = make_assembly(self.bus, mods, speed)
         self.sim = Simulator(self.dev)
-        self.sim.add_clock(1 / 12e6, domain="usb")
+        self.sim.add_clock(1 / 12e6 if speed is None else 1 / 60e6, domain="usb")
         self.sim.add_testbench(self._bench)
         self._first = True
         self.cycles = 0
@@ -122,7 +203,11 @@ class Bench:
         ops, seed, gap_prob, stall_prob, replace = self._job
         rng = random.Random(seed)
         host = utmi.UTMIHost(self.bus, rng, gap_prob=gap_prob, stall_prob=stall_prob)
-        utmi.prime_device(ctx, self.dev)
+        if self.speed is None:
+            utmi.prime_device(ctx, self.dev)
+        else:
+            ctx.set(self.bus.tx_ready, 1)
+            ctx.set(self.bus.line_state, 1)
         ev = []          # (t, prio, seq, event)
 
         def log(t, prio, e):
@@ -300,8 +385,13 @@ class Bench:
             elif k == "end":
                 # quiescence: the host polls every stream IN endpoint (ACKing) until it NAKs twice in a row, all
                 # consumers are ready until nothing is offered any more; then `end` is logged
+                for _ in range(200):      # scheduled stream-side ops happen first
+                    if not pending:
+                        break
+                    await host.idle(ctx, 1)
                 for c in cons.values():
                     c["mode"] = ("ready",)
+
                 def nbeats():
                     return sum(1 for x in ev if x[3]["e"] == "beat")
 
